@@ -7,6 +7,9 @@ VERIF = os.path.dirname(os.path.dirname(os.path.abspath(__file__)))
 
 # id -> (technique, level text, level note, design ref)   -- only checks that exist under mc/checks are claimed
 CHECKS = {
+    "C11": ("exhaustive exploration of add-histories (operation sequences up to a depth) on both real stores against a list model",
+            "Every history of length <=3 (thorough: + length 4 over 13 core events) over a menu of 23 add events (versions of one id in every order, object/dict/list/bundle/JSON-text forms, duplicate and conflicting versions, timestamp spellings, sub-millisecond neighbours, unversioned SCO, marking-definition, 2.0 object, registered custom, unregistered dicts, non-v4 UUID ids, bundlify) is executed on MemoryStore and FileSystemStore side by side with a list model in lock-step; get/all_versions/query for every id and type after every history; save_to_file/load_from_file from every state of length <=2. No state merging: every order is executed.",
+            "trusted: list model + parse() as the definition of 'what went in' (C03 covers the parser); result order never compared; refusals are loud and pin the model (DESIGN §3 C11)", "DESIGN.md §3 C11"),
     "C07": ("explicit-state BFS over marking-operation histories on the real objects, set model in lock-step, canonical-state de-duplication",
             "From the unmarked object of each kind (2.0 SDO, 2.1 SDO, 2.1 SRO, plain dict) every history of add/remove/set/clear events of length <=3 over the event alphabet (selector options incl. string-prefix siblings, list parent/child, nested, multi-selector, empty; marking refs, language markings, duplicates, marking objects; flag variants) is executed with the set-of-(selector,marking) model in lock-step; in every reached state all get_markings/is_marked queries x flag combinations are compared with the model and with each other; layout variants and every directly constructed state with <=2 pairs (incl. the non-versionable 2.1 marking-definition) are explored as well. States are merged on (kind, pair set).",
             "trusted: mc/ref/markset.py; canonicalisation argument in DESIGN §3 C07 K; selectors through embedded objects are blocked by the C08 defect on object forms (counted in evidence notes)", "DESIGN.md §3 C07"),
